@@ -18,6 +18,12 @@ OTHER = '<other>'
 
 
 class PInterp(Interp):
+    def e_DeclRefExpr(self, n, env):
+        # enumerators of system headers (glibc's _ISspace behind isspace()) are opaque constants
+        if n.ref_kind == 'EnumConstantDecl' and self.unit.enum_value(n.ref_name) is None:
+            return Sym('enum:' + str(n.ref_name), 'int')
+        return super().e_DeclRefExpr(n, env)
+
     def e_UnaryOperator(self, n, env):
         if n.opcode == '&':
             t = (n.inner[0].dtype or n.inner[0].type or '').strip()
